@@ -23,15 +23,15 @@ def stats(behs):
     return c
 
 
-def gen(run, plans, cfg="Gen_XState.cfg", module="Gen_XState.tla"):
+def gen(run, plans, cfg="Gen_XState.cfg", module="Gen_XState.tla", tag=""):
     """plans: list of dict(num, ops, consts). Returns (behaviours grouped by window, catalog path)."""
     groups = []
     for k, p in enumerate(plans):
         consts = {"MaxOps": p["ops"], "MaxBlocks": p.get("maxb", 7), "MaxTxPerBlock": p.get("mtx", 2),
                   "Window": p.get("window", 0), "ActiveTxs": p.get("txs", ALL_TXS), "BlockBudget": p.get("budget", 1000)}
         consts.update(p.get("consts", {}))
-        behs = run.tlc_gen(module, p.get("cfg", cfg), p["num"], p["ops"] + 2, name="gen%d" % k, seed=run.seed * 1000 + k, consts=consts)
-        groups.append((p, behs, os.path.join(run.work, "gen%d" % k, "catalog.json")))
+        behs = run.tlc_gen(module, p.get("cfg", cfg), p["num"], p["ops"] + 2, name="gen%s%d" % (tag, k), seed=run.seed * 1000 + k, consts=consts)
+        groups.append((p, behs, os.path.join(run.work, "gen%s%d" % (tag, k), "catalog.json")))
     return groups
 
 
@@ -55,6 +55,7 @@ def replay_validate(run, groups, extra_driver_args=(), trace_cfg="Trace_XState.c
     for p, behs, cat in groups:
         args = ["-catalog", cat, "-window", str(p.get("window", 0))] + list(p.get("driver_args", [])) + list(extra_driver_args)
         consts = {"Window": p.get("window", 0), "BlockBudget": p.get("budget", 1000)}
+        consts.update(p.get("consts", {}))
         total += tracecheck.replay_and_validate(run, behs, driver="xstate-replay", driver_args=args,
                                                 trace_module="Trace_XState.tla", trace_cfg=trace_cfg, consts=consts,
                                                 kf_consts=kf_consts or None, kf_desc={k: known.get(k) for k in kf_consts},
@@ -64,15 +65,15 @@ def replay_validate(run, groups, extra_driver_args=(), trace_cfg="Trace_XState.c
     return total
 
 
-def engine_phase(run, num, ops=40, window=0, mc=True):
+def engine_phase(run, num, ops=40, window=0, mc=True, tag=""):
     """Engine.tla: the production block pipeline (Miner.ProcBlock -> trySyncBlock -> downloadMissBlock through a stub
     network -> batchConfirmBlock with the real single consensus -> Walk; Miner.mining; restarts). One pushed chain is
     explained by PushBegin, silent micro-steps (XState actions) and PushEnd."""
     if mc:
         run.tlc_mc("Engine.tla", "MC_Engine.cfg", timeout=3000)
     consts = {"MaxOps": ops, "MaxBlocks": 14, "Window": window}
-    behs = run.tlc_gen("Gen_Engine.tla", "Gen_Engine.cfg", num, ops + 30, name="genE", seed=run.seed * 1000 + 77, consts=consts)
-    cat = os.path.join(run.work, "genE", "catalog.json")
+    behs = run.tlc_gen("Gen_Engine.tla", "Gen_Engine.cfg", num, ops + 30, name="genE" + tag, seed=run.seed * 1000 + 77, consts=consts)
+    cat = os.path.join(run.work, "genE" + tag, "catalog.json")
     known = {k: KF_DESC.get(k, d) + " [" + d + "]" for k, d in vp.known_keys(run.pid).items()}
     kf_consts = {k: "TRUE" for k in known if k.startswith("KF_")}
     for k in OUTSIDE.get(run.pid, []):
@@ -83,4 +84,7 @@ def engine_phase(run, num, ops=40, window=0, mc=True):
                                    kf_consts=kf_consts or None, kf_desc={k: known.get(k) for k in kf_consts}, name="E", batch=200)
     st = stats(behs)
     run.cov["engine_op_mix"] = dict(st)
+    # truncating rounds whose walk the specification refuses (it would cross the irreversible height)
+    run.cov["engine_trunc_refused"] = run.cov.get("engine_trunc_refused", 0) + sum(
+        1 for b in behs for i, o in enumerate(b) if o["op"] == "minetrunc" and i + 1 < len(b) and b[i + 1]["op"] == "walk" and b[i + 1]["res"] == "fail")
     return behs, st
